@@ -146,8 +146,10 @@ def finish(ctx, lean):
         "property_id": ctx.prop, "tier": ctx.tier, "seed": ctx.seed, "level": ctx.level, "coverage": cov,
         "assumptions": TRUSTED_BASE, "wall_s": wall, "violations": len(ctx.violations) + (0 if code == 0 else (0 if ctx.violations else 1)),
     }
-    os.makedirs(os.path.join(ROOT, "evidence"), exist_ok=True)
-    with open(os.path.join(ROOT, "evidence", f"{ctx.prop}.json"), "w") as f:
+    # a development run without the Lean gate is not evidence for a proof-level claim: it is written elsewhere
+    evdir = os.path.join(ROOT, "evidence" if lean is not None else "evidence-dev")
+    os.makedirs(evdir, exist_ok=True)
+    with open(os.path.join(evdir, f"{ctx.prop}.json"), "w") as f:
         json.dump(jsonable(ev), f, indent=1)
     for ln in lines:
         print(ln)
